@@ -99,6 +99,22 @@ def run(ctx):
         warn = [x for x in own_nodes(holder.node) if isinstance(x, ast.If) and "actor is None" in norm(x.test) and any(isinstance(y, ast.Return) for y in x.body)]
         c.ob("R4", bool(warn), holder, f"{v}:unresolved-target-dropped", "an unresolved stopChild target is dropped" if warn else
              "stopChild no longer returns when its target does not resolve", holder.node)
+    # ---- R8 unresolved / ambiguous targets are dropped -------------------------------------
+    rt = p.method("BaseInterpreter", "_resolve_actor_target")
+    amb = [x for x in own_nodes(rt.node) if isinstance(x, ast.If) and "len(matches) > 1" in norm(x.test)]
+    ok = bool(amb) and any(isinstance(s_, ast.Return) and (s_.value is None or (isinstance(s_.value, ast.Constant) and s_.value.value is None)) for s_ in amb[0].body)
+    c.ob("R8", ok, rt, "ambiguous-target-resolves-to-none", "an address matching several children resolves to no actor (the send is dropped with a warning)" if ok else
+         "an ambiguous address no longer resolves to None: the message goes to an arbitrary one of the matching children", rt.node)
+    for v in VIEWS:
+        b = roles(ctx, v).builtin
+        funcs_ = [b] + [t for s_ in res.callsites(b, v) if s_.recv == "self" for t in s_.targets if t.name in ("_stop_child_actor",)]
+        for f_ in funcs_:
+            for call in self_calls_in(f_, "_deliver"):
+                a0 = call.args[0] if call.args else None
+                if isinstance(a0, ast.Name) and a0.id == "actor":
+                    ok = any((cp := compare_parts(a)) is not None and isinstance(cp[1], ast.Is) and not pol and norm(cp[0]) == "actor" for a, pol in guards_at(f_, call))
+                    c.ob("R8", ok, f_, f"{v}:deliver-only-to-resolved-actor", "delivery happens only when the target resolved" if ok else
+                         "a sendTo/forwardTo delivery is not guarded by 'actor is None -> return'", call)
     # ---- R5 registry hygiene on stop() ---------------------------------------------------
     shared.registry_hygiene(ctx, "R5")
     # ---- R6 a re-used send id cancels the previous pending send first ---------------------
@@ -130,10 +146,13 @@ def run(ctx):
     for v in VIEWS:
         sp = p.method(v, "_spawn_actor")
         g = cfg_of(sp.node)
-        reg = [w for w in attr_writes(sp) if w.attr == "_actors" and w.op == "subscript"]
-        starts = [x for x in own_nodes(sp.node) if isinstance(x, ast.Call) and isinstance(x.func, ast.Attribute) and x.func.attr == "start"
+        # the spawn routine itself plus private helpers it calls on self (a construction helper counts)
+        helpers = [sp] + [t for s_ in res.callsites(sp, v) if s_.recv == "self" for t in s_.targets
+                          if t.name.startswith("_") and t.name not in ("_register_in_system",) and t.qualname != sp.qualname]
+        reg = [w for h in helpers for w in attr_writes(h) if w.attr == "_actors" and w.op == "subscript"]
+        starts = [x for h in helpers for x in own_nodes(h.node) if isinstance(x, ast.Call) and isinstance(x.func, ast.Attribute) and x.func.attr == "start"
                   and dotted(x.func.value) in ("child", "child_interpreter")]
-        sysreg = self_calls_in(sp, "_register_in_system")
+        sysreg = [x for h in helpers for x in self_calls_in(h, "_register_in_system")]
         c.ob("R7", len(reg) == 1, sp, "one-children-map-registration", "the child is registered in _actors exactly once" if len(reg) == 1 else
              f"{len(reg)} registrations in _actors per spawn", sp.node)
         c.ob("R7", len(sysreg) == 1, sp, "one-system-registration", "the child is registered under its systemId once" if len(sysreg) == 1 else
